@@ -221,6 +221,8 @@ func generate(w *world, seed int64, tier string, search bool) []string {
 			emit("LDBL " + g.name + " " + p.text)
 			emit("NEG " + g.name + " " + p.text)
 			emit("ISID " + g.name + " " + p.text)
+			emit("TORS " + g.name + " " + p.text)
+			emit("CLRCOF " + g.name + " " + p.text)
 			if p.text != "inf" {
 				emit("ONC " + g.name + " " + p.text)
 			}
